@@ -755,6 +755,15 @@ func init() {
 		Variant{Name: "benign: forward decision with the manager test first", Property: "C09", File: shm, Benign: true,
 			Old: "\tif sm.memberlistConfig != nil {\n\t\tif owner, ok := sm.getShardOwner(targetShard); ok && owner != sm.GetNodeName() {\n\t\t\tif addr, found := sm.GetProxyAddress(owner); found {\n\t\t\t\tif mgr := sm.GetIntraProxyManager(); mgr != nil {\n", New: "\tif mgr := sm.GetIntraProxyManager(); mgr != nil && sm.memberlistConfig != nil {\n\t\tif owner, ok := sm.getShardOwner(targetShard); ok && owner != sm.GetNodeName() {\n\t\t\tif addr, found := sm.GetProxyAddress(owner); found {\n\t\t\t\t{\n"},
 	)
+	// ---- relay loops: ending the loop for a reason is not a bypass
+	addVariants(
+		Variant{Name: "benign: sender re-checks its latch after taking a message", Property: "C02", File: pst, Benign: true,
+			Old: "\t\t\tif !ok {\n\t\t\t\treturn nil\n\t\t\t}\n\t\t\ts.logger.Debug(fmt.Sprintf(\"Sender received ReplicationTasks: routed.Resp=%p\", routed.Resp)", New: "\t\t\tif !ok {\n\t\t\t\treturn nil\n\t\t\t}\n\t\t\tif shutdownChan.IsShutdown() {\n\t\t\t\treturn nil\n\t\t\t}\n\t\t\ts.logger.Debug(fmt.Sprintf(\"Sender received ReplicationTasks: routed.Resp=%p\", routed.Resp)"},
+		Variant{Name: "benign: same edit seen by C03", Property: "C03", File: pst, Benign: true,
+			Old: "\t\t\tif !ok {\n\t\t\t\treturn nil\n\t\t\t}\n\t\t\ts.logger.Debug(fmt.Sprintf(\"Sender received ReplicationTasks: routed.Resp=%p\", routed.Resp)", New: "\t\t\tif !ok {\n\t\t\t\treturn nil\n\t\t\t}\n\t\t\tif shutdownChan.IsShutdown() {\n\t\t\t\treturn nil\n\t\t\t}\n\t\t\ts.logger.Debug(fmt.Sprintf(\"Sender received ReplicationTasks: routed.Resp=%p\", routed.Resp)"},
+		Variant{Name: "benign: receiver loop written with an explicit break on the latch", Property: "C02", File: pst, Benign: true,
+			Old: "\tfor !shutdownChan.IsShutdown() {\n\t\tresp, err := sourceStreamClient.Recv()\n", New: "\tfor {\n\t\tif shutdownChan.IsShutdown() {\n\t\t\tbreak\n\t\t}\n\t\tresp, err := sourceStreamClient.Recv()\n"},
+	)
 	// ---- swallowed errors and retained state (general rules)
 	addVariants(
 		Variant{Name: "blob repair error logged and dropped", Property: "C17", File: refl,
